@@ -2,6 +2,7 @@
 
 Expression trees (leaves are recording sinks, labelled 0,1,2,0,.. left to right):
   x = with_max_level   n = with_min_level   f = with_filter   u = any of the three (solver-chosen, see c13::AnyU)
+  b = BoxMakeWriter::new (type-erasing pass-through; denotes its operand)
   a = and (Tee)        o = or_else (left operand must be one of x/n/f/u: `Writer = OptionalWriter<_>`)
 The harness name is the tree in prefix notation, e.g. c13_alg_aox01n2 = max(S0).or_else(S1).and(min(S2)).
 Thresholds, predicate tables, the choice inside `u`, the event level and the bytes are symbolic in every harness.
@@ -52,6 +53,8 @@ def label(e, ctr=None):
         k = ctr["k"]
         ctr["k"] += 1
         return (e[0], k, label(e[1], ctr))
+    if e[0] == "b":
+        return ("b", label(e[1], ctr))
     a = label(e[1], ctr)
     b = label(e[2], ctr)
     return (e[0], a, b)
@@ -62,6 +65,8 @@ def name(e):
         return str(e[1])
     if e[0] in ("x", "n", "f", "u"):
         return e[0] + name(e[2])
+    if e[0] == "b":
+        return "b" + name(e[1])
     return e[0] + name(e[1]) + name(e[2])
 
 
@@ -70,6 +75,8 @@ def text(e):
         return "S%d" % e[1]
     if e[0] in ("x", "n", "f", "u"):
         return {"x": "max", "n": "min", "f": "filter", "u": "any-of-max/min/filter"}[e[0]] + "(" + text(e[2]) + ")"
+    if e[0] == "b":
+        return "boxed(" + text(e[1]) + ")"
     return "%s.%s(%s)" % (text(e[1]), {"a": "and", "o": "or_else"}[e[0]], text(e[2]))
 
 
@@ -88,6 +95,8 @@ def real(e):
         return "%s.with_filter(%s)" % (real(e[2]), CLOS % e[1])
     if k == "u":
         return "anyu(%s, sel%d, t%d, %s)" % (real(e[2]), e[1], e[1], CLOS % e[1])
+    if k == "b":
+        return "BoxMakeWriter::new(%s)" % real(e[1])
     if k == "a":
         return "%s.and(%s)" % (real(e[1]), real(e[2]))
     return "%s.or_else(%s)" % (real(e[1]), real(e[2]))
@@ -97,6 +106,8 @@ def den(e, meta):
     k = e[0]
     if k == "S":
         return "d_sink(%d)" % e[1]
+    if k == "b":
+        return den(e[1], meta)
     if k in ("x", "n", "f", "u"):
         i, x = e[1], den(e[2], meta)
         if meta:
@@ -113,6 +124,8 @@ def params(e, acc=None):
     if e[0] in ("x", "n", "f", "u"):
         acc.append((e[0], e[1]))
         params(e[2], acc)
+    elif e[0] == "b":
+        params(e[1], acc)
     elif e[0] != "S":
         params(e[1], acc)
         params(e[2], acc)
@@ -127,6 +140,8 @@ def sink_info(e, gated=False, info=None):
         info[e[1]] = info.get(e[1], True) and gated
     elif e[0] in ("x", "n", "f", "u"):
         sink_info(e[2], True, info)
+    elif e[0] == "b":
+        sink_info(e[1], gated, info)
     elif e[0] == "a":
         sink_info(e[1], gated, info)
         sink_info(e[2], gated, info)
@@ -181,6 +196,10 @@ QUICK_EXTRA = [
     ("o", ("f", ("S",)), ("S",)),                                 # the with_filter doc example (depth 2)
     ("o", ("x", ("n", ("S",))), ("S",)),                          # enabled outer gate around a disabled inner one: no fall-back
     ("o", ("f", ("x", ("S",))), ("o", ("n", ("S",)), ("S",))),   # or_else chain
+    ("b", ("S",)),                                                # boxed sink: both factory methods forwarded
+    ("b", ("x", ("S",))),                                         # boxed level gate: the metadata reaches the gate
+    ("a", ("b", ("n", ("S",))), ("S",)),                          # boxed gate inside a tee
+    ("o", ("x", ("b", ("f", ("S",)))), ("S",)),                   # gate around a boxed filter, with fall-back
 ]
 # depth-3 `u`-collapsed trees that run in the quick tier (all of them run in the thorough tier)
 QUICK_U3 = ["uuu0", "uou0u1", "uau0u1", "ouu0uu1", "auu0uu1", "ou0uu1", "ouu01"]
@@ -227,7 +246,7 @@ use crate::common::*;
 use core::sync::atomic::Ordering;
 use std::io;
 use tracing_core::Metadata;
-use tracing_subscriber::fmt::writer::{MakeWriter, MakeWriterExt};
+use tracing_subscriber::fmt::writer::{BoxMakeWriter, MakeWriter, MakeWriterExt};
 
 """
 
